@@ -261,7 +261,11 @@ pub fn secret(full: bool) -> ChatScn {
 /// Rosters and the three views after a contended registration (see ghost.rs).
 pub fn ghost(full: bool) -> ChatScn {
     let mut s = super::ghost::ghost_scn("c04-ghost", &[Cat::Membership, Cat::ChanExistence, Cat::UserExistence, Cat::UserIdentity], full);
-    s.state_oracle = Some(Box::new(views_agree));
+    s.state_oracle = Some(Box::new(|scn, w, v, g| {
+        let mut out = super::reg::ownership_bijection(v);
+        out.extend(views_agree(scn, w, v, g));
+        out
+    }));
     s.goals.push("views-compared");
     s
 }
